@@ -41,6 +41,13 @@ OBLIGATIONS = [
     "Grog.C17.parsePatterns_matches_iff",
     "Grog.C17.patternFromLabel_matches_iff",
     "Grog.C17.canBeShortened_iff",
+    "Grog.C17.label_print_injective",
+    "Grog.C17.matchesAny_append",
+    "Grog.C17.matchesAny_perm",
+    "Grog.C17.matchAll_matches",
+    "Grog.C17.patternFromLabel_matches_self",
+    "Grog.C17.recursive_subsumes",
+    "Grog.C17.exact_subsumed",
 ]
 ASSUMPTIONS = [
     "errors of the Go parsers are compared only as ok / not ok",
